@@ -526,7 +526,7 @@ def run(ctx):
     if ctx.prop == "C15" and not getattr(ctx, "_sharing", False):
         from .common import share
         share(ctx, "C14", ("R14.1", "R14.2"), "R15.8", "write-set obligations shared with C14", 6)
-        share(ctx, "C13", ("R13.3",), "R15.8", "short-name obligations shared with C13 (a refused short name is not stored: the usage text would list a spelling that was never declared)", 3)
+        share(ctx, "C13", ("R13.3", "R13.10"), "R15.8", "short-name obligations shared with C13 (a refused short name is not stored: the usage text would list a spelling that was never declared)", 3)
         share(ctx, "C13", ("R13.1", "R13.2"), "R15.8", "uniqueness obligations shared with C13 (a name declared in two groups is listed twice)", 4)
     # ---- R15.3
     used = set()
